@@ -118,7 +118,7 @@ impl Report {
         self.violations_total += 1;
         let n = self.violation_sigs.entry(signature.to_string()).or_insert(0);
         *n += 1;
-        if *n <= 2 && self.violations.len() < MAX_VIOLATIONS {
+        if (*n == 1 && self.violations.len() < 4 * MAX_VIOLATIONS) || (*n == 2 && self.violations.len() < MAX_VIOLATIONS) {
             self.violations.push(json!({
                 "signature": signature,
                 "seed": self.cli.seed, "shard": self.cli.shard, "nshards": self.cli.nshards,
